@@ -134,6 +134,7 @@ def run_spec(spec: dict) -> dict:
                 ns[m.split(".")[-1]] = importlib.import_module(m)
             if "setup" in spec:
                 exec(spec["setup"], ns)
+                obj = ns.get("TARGET_OBJ", obj)
                 args = [ns[a[1:]] if isinstance(a, str) and a.startswith("$") and a[1:] in ns else a for a in args]
                 kwargs = {k: (ns[a[1:]] if isinstance(a, str) and a.startswith("$") and a[1:] in ns else a)
                           for k, a in kwargs.items()}
